@@ -21,7 +21,20 @@ func init() {
 		g := v.Gen(w, c, MixAll)
 		g.FeeProb = 0.2
 		n := c.N(200, 600)
-		g.Free(n/2, g.StdDt)
+		// every third instance runs under chaos: outages, gaps and governance parameter moves between
+		// the segments of traffic (see chaos.go)
+		var ch *Chaos
+		if c.Job.Index%3 == 1 {
+			ch = NewChaos(c, w, g)
+		}
+		free := func(k int) {
+			if ch != nil {
+				ch.Run(k, g.StdDt)
+			} else {
+				g.Free(k, g.StdDt)
+			}
+		}
+		free(n / 2)
 		exitAgainstCustody(c, w)
 		// governance rewrites pool parameters in mid-history: the constant-product pool 3 becomes an
 		// oracle pool for a while and goes back, pool 2 gets another swap fee
@@ -42,7 +55,7 @@ func init() {
 				}
 			}
 		}
-		g.Free(n-n/2, g.StdDt)
+		free(n - n/2)
 	})
 }
 
